@@ -152,10 +152,11 @@ CHECKS["C10"] = dict(
     level=MC, engine="history-explorer",
     technique="explicit enumeration of all operation histories up to a depth on the real solver objects, checked step by step against a piecewise closed-form reference model",
     rule="alphabet of 19 operations {Evolve(0|0.3|0.7), toggle each of the 5 term switches, Set_AnyNumerics(false|true), stepper rkf45|rk4|msadams, toggle adaptive, toggle tolerance, move-construct, "
-         "move-assign into a fresh and into a used solver (other dimensions), re-ini} on a Probe solver (nx=2, nsun in {2,3}, 1 rho, 1 scalar); every history up to depth 3 (quick, under ASan) / depth 4 plus all depth-5 "
+         "move-assign into a fresh and into a used solver (other dimensions), re-ini} on a Probe solver (nx=2, nsun in {2,3}, 1 rho, 1 scalar); every history up to depth 3 under ASan and depth 4 in the shipped build (quick) / additionally all depth-5 "
          "histories with >=2 Evolve (thorough); no state merging (values matter); a state is a history, a transition an operation application checked by the oracle",
     assumptions=["closed-form reference (commuting diagonal terms)", "msadams only in adaptive mode", "moved-from solvers are destroyed immediately (and their problem description poisoned first)"],
     runs=[run("c10_asan", "c10.cpp", "asan", shards=16, args=["--depth", "3"], tiers=("quick",)),
+          run("c10_d4q", "c10.cpp", "prod", shards=16, args=["--depth", "4", "--deadline", "600"], tiers=("quick",)),
           run("c10_asan_t", "c10.cpp", "asan", shards=16, args=["--depth", "3"], tiers=("thorough",)),
           run("c10_d4", "c10.cpp", "prod", shards=16, args=["--depth", "4", "--deadline", "1500"], tiers=("thorough",)),
           run("c10_d5", "c10.cpp", "prod", shards=16, args=["--depth", "5", "--min-evolves", "2", "--deadline", "3000"], tiers=("thorough",))],
@@ -186,8 +187,9 @@ CHECKS["C15"] = dict(
          "(3 forms), commutators, compound assignments, scalar product - every slot combination, including all dimension mismatches (exceptions). Oracle: AddressSanitizer + UBSan (alignment, bounds, null, overflow, "
          "shift, vla), ledger (double / foreign / interior delete[]), storage validity of every slot, user-buffer guard zones, and after every transition the teardown probe: destroy everything, clear_mem_cache(), "
          "no block may remain live. Solver objects: see the c15s run",
-    assumptions=["GSL's own malloc blocks are checked by LeakSanitizer in the solver run only", "at most 3 vectors / 2 buffers; dimensions {2,3} in the closure run, 2..6 in the solver histories"],
+    assumptions=["GSL's own malloc blocks are checked by LeakSanitizer in the solver run only", "at most 3 vectors / 2 buffers; dimension sets {2,3} (opposite parity) and {2,4} (same parity: blocks of one dimension are cacheable under the other) in the closure runs, 2..6 in the solver histories"],
     runs=[run("hist_c15_a1", "hist.cpp", "asan", args=["--mode", "c15", "--slots", "2", "--bufs", "1", "--dims", "2.3", "--align", "1"], tiers=("quick", "thorough")),
+          run("hist_c15core_d24", "hist.cpp", "asan", args=["--mode", "c15core", "--slots", "3", "--bufs", "2", "--dims", "2.4", "--align", "0"], tiers=("quick", "thorough")),
           run("hist_c15_a0_d4", "hist.cpp", "asan", args=["--mode", "c15", "--slots", "2", "--bufs", "1", "--dims", "2.3", "--align", "0", "--depth", "4"], tiers=("quick",)),
           run("hist_c15_a0", "hist.cpp", "asan", args=["--mode", "c15", "--slots", "2", "--bufs", "1", "--dims", "2.3", "--align", "0", "--deadline", "3000"], tiers=("thorough",), timeout={"thorough": 5000}),
           run("c15s", "c15s.cpp", "asan", shards=16, args=["--depth", "3"], tiers=("quick",), env={"ASAN_OPTIONS": "detect_leaks=1:leak_check_at_exit=0:allocator_may_return_null=1"}),
